@@ -265,6 +265,13 @@ func main() {
 		ok := check(r, w, s, c, false, nil, nil)
 		rerr := c.Refresh()
 		ok = check(r, w, s, c, true, rerr, nil) && ok
+		// the same population seen by a cache in automatic-refresh mode (the default), queried and
+		// explicitly refreshed: same isolation, same error report, same Refresh() verdict
+		ca, _ := cdi.NewCache(cdi.WithSpecDirs(paths...), cdi.WithAutoRefresh(true))
+		ok = check(r, w, s, ca, false, nil, nil) && ok
+		aerr := ca.Refresh()
+		ok = check(r, w, s, ca, true, aerr, nil) && ok
+		_ = ca.Configure(cdi.WithAutoRefresh(false))
 		r.States.Add(1)
 		// repairs: every bad file is repaired in every way; every missing directory is created with a valid file; depth 2
 		type repair struct {
